@@ -83,7 +83,11 @@ Section Props.
     | e :: es => Err (e :: es)
     | [] =>
         match w_build_ctx W (asts_of source) with
-        | Err ms => Err (map (EStage SCtx None) ms)
+        | Err ms =>
+            match w_ctx_blame W (parse_oks src) with
+            | [] => Err (map (EStage SCtx None) ms)
+            | e :: es => Err (e :: es)
+            end
         | Ok ctx =>
             let lk := w_lookups W ord ctx in
             match check_errs lk (parse_oks src) with
@@ -169,7 +173,7 @@ Section Props.
   Proof.
     intros ord ann source dir pys. rewrite m2p_eq. unfold m2p_spec. cbv zeta. split.
     - destruct (parse_errs _) eqn:P; [|discriminate].
-      destruct (w_build_ctx W _) as [ctx|ms]; [|discriminate].
+      destruct (w_build_ctx W _) as [ctx|ms]; [|destruct (w_ctx_blame W _); discriminate].
       destruct (check_errs _ _) eqn:C; [|discriminate].
       destruct (gen_errs _ _ _) eqn:G; [|discriminate]. intros [= <-].
       exists ctx. split; [reflexivity|]. apply (file_out_stripped _ _ dir). now apply chain_ok.
@@ -233,6 +237,66 @@ Section Props.
     - intros (p0 & I & ->). now exists (s, p0).
   Qed.
 
+  (** *** the context stage: a project's context fails exactly because of files whose own context fails *)
+  Notation collectW := (collect (w_c_key W) (w_f_key W) (w_d_name W) (w_decls_of W)).
+
+  Lemma build_ctx_single : forall a ms, w_build_ctx W [a] = Err ms <-> w_decls_of W a = Err ms.
+  Proof.
+    intros a ms. unfold w_build_ctx, build_ctx. cbn [collect]. destruct (w_decls_of W a) as [d|ms'].
+    - split; discriminate.
+    - split; intros [= ->]; reflexivity.
+  Qed.
+
+  Lemma collect_err : forall asts acc ms, collectW asts acc = Err ms -> exists a, In a asts /\ w_decls_of W a = Err ms.
+  Proof.
+    induction asts as [|a asts IH]; intros acc ms H; cbn [collect] in H; [discriminate|].
+    destruct (w_decls_of W a) as [d|ms'] eqn:D.
+    - destruct (IH _ _ H) as (b & Ib & Hb). exists b. split; [now right | assumption].
+    - injection H as ->. exists a. split; [now left | assumption].
+  Qed.
+
+  Lemma collect_in_err : forall asts acc a ms, In a asts -> w_decls_of W a = Err ms -> exists ms', collectW asts acc = Err ms'.
+  Proof.
+    induction asts as [|b asts IH]; intros acc a ms I H; [destruct I|]. cbn [collect].
+    destruct (w_decls_of W b) as [d|ms'] eqn:D; [|now exists ms'].
+    destruct I as [->|I]; [congruence | now apply (IH _ a ms)].
+  Qed.
+
+  Lemma build_ctx_err : forall asts ms, w_build_ctx W asts = Err ms -> exists a, In a asts /\ w_build_ctx W [a] = Err ms.
+  Proof.
+    intros asts ms H. unfold w_build_ctx, build_ctx in H.
+    destruct (collectW asts no_decls) as [d|ms'] eqn:Cl; [discriminate|]. injection H as ->.
+    destruct (collect_err _ _ _ Cl) as (a & Ia & Da). exists a. split; [assumption | now apply build_ctx_single].
+  Qed.
+
+  Lemma build_ctx_in_err : forall asts a ms, In a asts -> w_build_ctx W [a] = Err ms -> exists ms', w_build_ctx W asts = Err ms'.
+  Proof.
+    intros asts a ms I H. apply build_ctx_single in H. destruct (collect_in_err asts no_decls a ms I H) as [ms' Hc].
+    exists ms'. unfold w_build_ctx, build_ctx. now rewrite Hc.
+  Qed.
+
+  Lemma in_ctx_blame : forall l e, In e (w_ctx_blame W l) <->
+    exists a p ms m, In (a, p) l /\ w_build_ctx W [a] = Err ms /\ In m ms /\ e = EStage SCtx p m.
+  Proof.
+    intros l e. unfold w_ctx_blame, ctx_blame. rewrite in_flat_map. split.
+    - intros ([a p] & I & H). cbn [fst snd] in H. fold (w_build_ctx W [a]) in H.
+      destruct (w_build_ctx W [a]) as [c|ms] eqn:B; [destruct H|].
+      apply in_map_iff in H. destruct H as (m & <- & Im). now exists a, p, ms, m.
+    - intros (a & p & ms & m & I & B & Im & ->). exists (a, p). split; [assumption|]. cbn [fst snd].
+      fold (w_build_ctx W [a]). rewrite B. now apply in_map.
+  Qed.
+
+  (** the fallback branch (no file fails alone) is only reached with an empty error list *)
+  Lemma fallback_empty : forall l ms, w_build_ctx W (map fst l) = Err ms -> w_ctx_blame W l = [] -> ms = [].
+  Proof.
+    intros l ms B E. destruct (build_ctx_err _ _ B) as (a & Ia & Ba).
+    apply in_map_iff in Ia. destruct Ia as ([a' p] & <- & I). cbn [fst] in Ba.
+    destruct ms as [|m ms]; [reflexivity|]. exfalso.
+    assert (X : In (EStage SCtx p m) (w_ctx_blame W l)).
+    { apply in_ctx_blame. exists a', p, (m :: ms), m. repeat split; try assumption. now left. }
+    rewrite E in X. destruct X.
+  Qed.
+
   (** which file, failing which stage how, an error stands for *)
   Definition blames (ord : enumeration) (ann : bool) (source : list input) (dir : path) (e : E) : Prop :=
     match e with
@@ -246,8 +310,9 @@ Section Props.
           w_build_ctx W (asts_of source) = Ok ctx /\ w_check W (w_lookups W ord ctx) a = Ok t /\
           w_gen W ann (w_lookups W ord ctx) t = Err m
     | EStage SCtx p m =>
-        (* the context stage attaches neither path nor source text *)
-        p = None /\ exists ms, w_build_ctx W (asts_of source) = Err ms /\ In m ms
+        (* a file whose own context (its declarations alone) cannot be built *)
+        exists s p0 a ms, In (s, p0) source /\ p = option_map (strip_prefix dir) p0 /\ w_parse W s = Ok a /\
+          w_build_ctx W [a] = Err ms /\ In m ms
     | _ => False
     end.
 
@@ -266,7 +331,13 @@ Section Props.
           destruct Ie as (a & p & ms & m & I & Ca & Im & ->).
           apply in_parse_oks in I. destruct I as (s & I & Pa).
           apply in_stripped in I. destruct I as (p0 & I & ->). cbn. now exists s, p0, a, ctx, ms.
-      + injection H as <-. apply in_map_iff in Ie. destruct Ie as (m & <- & Im). cbn. split; [reflexivity|]. now exists ms.
+      + rewrite <- asts_of_stripped with (dir := dir), <- asts_of_oks in B.
+        destruct (w_ctx_blame W (parse_oks (stripped dir source))) as [|e0 es0] eqn:Bl.
+        * injection H as <-. rewrite (fallback_empty _ _ B Bl) in Ie. destruct Ie.
+        * injection H as <-. rewrite <- Bl in Ie. apply in_ctx_blame in Ie.
+          destruct Ie as (a & p & ms' & m & I & Ba & Im & ->).
+          apply in_parse_oks in I. destruct I as (s & I & Pa).
+          apply in_stripped in I. destruct I as (p0 & I & ->). cbn. now exists s, p0, a, ms'.
     - injection H as <-. rewrite <- P in Ie. apply in_parse_errs in Ie. destruct Ie as (s & p & m & I & Pm & ->).
       apply in_stripped in I. destruct I as (p0 & I & ->). cbn. now exists s, p0.
   Qed.
@@ -313,6 +384,44 @@ Section Props.
     exists (List.concat (e :: es)). repeat split; try assumption.
     apply Forall_forall. intros x Ix. rewrite <- Ce in Ix. apply in_check_errs in Ix.
     destruct Ix as (a' & p' & ms' & m' & _ & _ & _ & ->). now exists p', m'.
+  Qed.
+  (** completeness for the context stage: when everything parses, every file whose own context fails
+      is reported with all its errors under its own path, and only context errors are reported *)
+  Theorem ctx_failure_reported : forall ord ann source dir s p0 a ms,
+    parse_errs (stripped dir source) = [] ->
+    In (s, p0) source -> w_parse W s = Ok a -> w_build_ctx W [a] = Err ms ->
+    exists es, m2p W ord ann source dir = Err es /\
+               (forall m, In m ms -> In (EStage SCtx (option_map (strip_prefix dir) p0) m) es) /\
+               Forall (fun e => exists p m', e = EStage SCtx p m') es.
+  Proof.
+    intros ord ann source dir s p0 a ms Pe I P B. rewrite m2p_eq. unfold m2p_spec. cbv zeta. rewrite Pe.
+    assert (Ia : In (a, option_map (strip_prefix dir) p0) (parse_oks (stripped dir source))).
+    { apply in_parse_oks. exists s. split; [|assumption]. apply in_stripped. now exists p0. }
+    assert (Iw : In a (asts_of source)).
+    { rewrite <- asts_of_stripped with (dir := dir), <- asts_of_oks. apply in_map_iff. now exists (a, option_map (strip_prefix dir) p0). }
+    destruct (build_ctx_in_err _ _ _ Iw B) as [ms' B']. rewrite B'.
+    assert (Hall : forall m, In m ms -> In (EStage SCtx (option_map (strip_prefix dir) p0) m)
+                                           (w_ctx_blame W (parse_oks (stripped dir source)))).
+    { intros m Im. apply in_ctx_blame. now exists a, (option_map (strip_prefix dir) p0), ms, m. }
+    destruct (w_ctx_blame W (parse_oks (stripped dir source))) as [|e es] eqn:Bl.
+    - exists (map (EStage SCtx None) ms'). split; [reflexivity|]. split.
+      + intros m Im. destruct (Hall m Im).
+      + apply Forall_forall. intros x Ix. apply in_map_iff in Ix. destruct Ix as (m' & <- & _). now exists None, m'.
+    - exists (e :: es). split; [reflexivity|]. split; [assumption|].
+      apply Forall_forall. intros x Ix. rewrite <- Bl in Ix. apply in_ctx_blame in Ix.
+      destruct Ix as (a' & p' & ms'' & m' & _ & _ & _ & ->). now exists p', m'.
+  Qed.
+
+  (** a diagnostic without a path can only come from an input that was given without a path *)
+  Theorem pathless_error_pathless_input : forall ord ann source dir es st m,
+    m2p W ord ann source dir = Err es -> In (EStage st None m) es -> exists s, In (s, None) source.
+  Proof.
+    intros ord ann source dir es st m H I. apply m2p_errors_blame in H.
+    apply (proj1 (Forall_forall _ _) H) in I. destruct st; cbn in I.
+    - destruct I as (s & p0 & I & E & _). destruct p0; [discriminate | now exists s].
+    - destruct I as (s & p0 & a & ms & I & E & _). destruct p0; [discriminate | now exists s].
+    - destruct I as (s & p0 & a & ctx & ms & I & E & _). destruct p0; [discriminate | now exists s].
+    - destruct I as (s & p0 & a & ctx & t & I & E & _). destruct p0; [discriminate | now exists s].
   Qed.
 End Props.
 
@@ -477,7 +586,8 @@ Section Dir.
     intros fs1 sp r H. unfold relative_files in H. destruct (is_file fs1 sp).
     - destruct H as [<-|[]]. discriminate.
     - unfold glob_mamba in H. apply (proj1 (sort_in _ _)) in H. apply in_flat_map in H. destruct H as (e & _ & H).
-      destruct (under sp (fst e)) as [r'|] eqn:U; [|destruct H]. destruct (is_mamba _); [|destruct H].
+      destruct (under sp (fst e)) as [r'|] eqn:U; [|destruct H]. destruct (snd e); [|destruct H].
+      destruct (is_mamba _); [|destruct H].
       destruct H as [<-|[]]. now apply under_spec in U.
   Qed.
 
@@ -639,13 +749,14 @@ Proof.
 Qed.
 
 Lemma pick_in : forall sp fs r, In r (flat_map (glob_pick sp) fs) <->
-  exists n, In (sp ++ r, n) fs /\ r <> [] /\ is_mamba (file_name r) = true.
+  exists t, In (sp ++ r, File t) fs /\ r <> [] /\ is_mamba (file_name r) = true.
 Proof.
   intros sp fs r. rewrite in_flat_map. unfold glob_pick. split.
-  - intros ([p n] & I & H). cbn [fst] in H. destruct (under sp p) as [r'|] eqn:U; [|destruct H].
+  - intros ([p n] & I & H). cbn [fst snd] in H. destruct (under sp p) as [r'|] eqn:U; [|destruct H].
+    destruct n as [t|]; [|destruct H].
     destruct (is_mamba (file_name r')) eqn:Mm; [|destruct H]. destruct H as [<-|[]].
-    apply under_spec in U. destruct U as [-> U]. now exists n.
-  - intros (n & I & Nr & Mm). exists (sp ++ r, n). split; [assumption|]. cbn [fst].
+    apply under_spec in U. destruct U as [-> U]. now exists t.
+  - intros (t & I & Nr & Mm). exists (sp ++ r, File t). split; [assumption|]. cbn [fst snd].
     assert (U : under sp (sp ++ r) = Some r) by now apply under_spec. rewrite U, Mm. now left.
 Qed.
 
@@ -653,10 +764,11 @@ Lemma pick_nodup : forall sp fs, NoDup (map fst fs) -> NoDup (flat_map (glob_pic
 Proof.
   intros sp. induction fs as [|[p n] fs IH]; intros D; cbn [flat_map]; [constructor|].
   cbn [map fst] in D. inversion D; subst. specialize (IH H2).
-  unfold glob_pick at 1. cbn [fst]. destruct (under sp p) as [r|] eqn:U; [|exact IH].
+  unfold glob_pick at 1. cbn [fst snd]. destruct (under sp p) as [r|] eqn:U; [|exact IH].
+  destruct n as [t|]; [|exact IH].
   destruct (is_mamba (file_name r)); [|exact IH]. cbn [app]. constructor; [|exact IH].
-  intro F. apply pick_in in F. destruct F as (n' & I & _). apply under_spec in U. destruct U as [-> _].
-  apply H1. apply in_map_iff. now exists (sp ++ r, n').
+  intro F. apply pick_in in F. destruct F as (t' & I & _). apply under_spec in U. destruct U as [-> _].
+  apply H1. apply in_map_iff. now exists (sp ++ r, File t').
 Qed.
 
 Theorem out_paths_nodup : forall fs1 sp od,
@@ -677,9 +789,9 @@ Proof.
       * unfold file_name in *. now rewrite last_app_ne.
       * unfold file_name in *. now rewrite last_app_ne.
       * unfold file_name. rewrite last_app_ne by assumption. rewrite <- (last_app_ne _ sp r1 "") by assumption.
-        apply Hn. apply in_map_iff. now exists (sp ++ r1, n1).
+        apply Hn. apply in_map_iff. now exists (sp ++ r1, File n1).
       * unfold file_name. rewrite last_app_ne by assumption. rewrite <- (last_app_ne _ sp r2 "") by assumption.
-        apply Hn. apply in_map_iff. now exists (sp ++ r2, n2).
+        apply Hn. apply in_map_iff. now exists (sp ++ r2, File n2).
     + apply sort_nodup. now apply pick_nodup.
 Qed.
 
